@@ -334,7 +334,12 @@ func (k Keeper) burnValidators(ctx sdk.Ctx) {
 		severity := sdk.Dec{}
 		address := sdk.Address(types.AddressFromKey(iterator.Key()))
 		amino.MustUnmarshalBinaryBare(iterator.Value(), &severity)
-		val := k.mustGetValidator(ctx, address)
+		val, found := k.GetValidator(ctx, address)
+		if !found {
+			// the validator finished unstaking and was removed after the burn was queued
+			store.Delete(iterator.Key())
+			continue
+		}
 		err := k.slash(ctx, sdk.Address(address), ctx.BlockHeight(), val.ConsensusPower(), severity)
 		if err != nil {
 			ctx.Logger().Error(err.Error())
